@@ -189,26 +189,26 @@ def _cli_case(case, clidrv, pelgen):
                 f.write(b)
             names.append(p)
         if case['mode'] == 'f':
-            r = clidrv.run_main(['-f', names[0], '-x', '-E'])
+            r = clidrv.run_main(['-f', names[0], '-x', '-E'], isolate=True)
             want = [pels[0]]
         elif case['mode'] == 'a':
-            r = clidrv.run_main(['-p', d, '-a', '-x', '-E'])
+            r = clidrv.run_main(['-p', d, '-a', '-x', '-E'], isolate=True)
             want = pels
         elif case['mode'] == 'l':
-            r = clidrv.run_main(['-p', d, '-l', '-x', '-E'])
+            r = clidrv.run_main(['-p', d, '-l', '-x', '-E'], isolate=True)
             want = pels
         elif case['mode'] == 'plid':
-            r = clidrv.run_main(['-p', d, '--plid', '%08X' % pelgen.pel_from_spec(case['pels'][0])['plid'], '-x'])
+            r = clidrv.run_main(['-p', d, '--plid', '%08X' % pelgen.pel_from_spec(case['pels'][0])['plid'], '-x'], isolate=True)
             want = [b for b, sp in zip(pels, case['pels']) if pelgen.pel_from_spec(sp)['plid'] == pelgen.pel_from_spec(case['pels'][0])['plid']]
         elif case['mode'] == 'src':
-            r = clidrv.run_main(['-p', d, '--src', 'BD8D', '-x'])
+            r = clidrv.run_main(['-p', d, '--src', 'BD8D', '-x'], isolate=True)
             want = [b for b, sp in zip(pels, case['pels']) if any(x.get('t') == 'PS' and 'BD8D' in x.get('ascii', 'BD8D1234') for x in sp['sections'][:1])]
         elif case['mode'] == 'bmc':
             r = clidrv.run_main(['-p', d, '--bmc-id', str(pelgen.pel_from_spec(case['pels'][0])['obmc']), '-x'])
             want = [pels[0]]
         else:
             os.rename(names[0], os.path.join(d, 'x_%08X' % pelgen.pel_from_spec(case['pels'][0])['eid']))
-            r = clidrv.run_main(['-p', d, '-i', '%08X' % pelgen.pel_from_spec(case['pels'][0])['eid'], '-x'])
+            r = clidrv.run_main(['-p', d, '-i', '%08X' % pelgen.pel_from_spec(case['pels'][0])['eid'], '-x'], isolate=True)
             want = [pels[0]]
         blocks = clidrv.split_hex_blocks(r.stdout)
         if blocks is None:
